@@ -397,6 +397,10 @@ def two_hook_scenarios():
     S["nested-with"] = [["with", "h1", ["foo"], tg, imports(["foo"]) + [["with", "h2", ["bar"], bt, imports(["bar.baz", "foo.sub"]), False]] + imports(["bar.bazooka", "foo.other"]), False]] + imports(["foobar.inner", "fo"])
     S["same-checker-twice"] = ([["install", "h1", ["foo"], tg], ["install", "h2", ["foo", "fo"], tg], ["uninstall", "h1"]] + imports(["foo.sub.deep", "foobar"])
                                + [["uninstall", "h2"]] + imports(["foo.other"]))
+    # the very same hook installed twice, the LATER one removed first: the earlier install is still in force
+    S["identical-twice-second-removed"] = ([["install", "h1", ["foo"], tg], ["install", "h2", ["foo"], tg]] + imports(["foo"]) + [["uninstall", "h2"]]
+                                           + imports(["foo.sub.deep", "foobar"]) + [["uninstall", "h1"]] + imports(["foo.other"]))
+    S["identical-with-inside-install"] = ([["install", "h1", ["foo", "bar"], bt], ["with", "h2", ["foo", "bar"], bt, imports(["foo"]), False]] + imports(["bar.baz", "foo.sub"]))
     S["self-hooking-package"] = imports(["selfhook", "selfhook.late", "foo"])
     S["self-hooking-package-under-other-hook"] = [["install", "h1", ["foo"], bt]] + imports(["selfhook", "foo", "selfhook.late"]) + [["uninstall", "h1"]] + imports(["foo.sub"])
     S["self-hooking-package-covered-by-outer-hook"] = [["with", "h1", ["selfhook", "fo"], bt, imports(["selfhook.late", "fo"]), False]] + imports(["foo"])
